@@ -15,8 +15,9 @@ META = {
     'level': 'proof',
     'technique': 'Coq proof (induction over word lists / scanner invariants) on a hand-written Gallina model + differential correspondence with the implementation',
     'design_ref': 'DESIGN.md section 4 C08',
-    'theorems': ['C08_casing_roundtrip', 'C08_casing_resolves', 'C08_snake_fixed', 'C08_letter_case_table'],
-    'tables': ['LetterCase'],
+    'theorems': ['C08_casing_roundtrip', 'C08_casing_resolves', 'C08_snake_fixed', 'C08_letter_case_table',
+                 'C08_path_roundtrip', 'C08_path_int_component', 'C08_path_tables'],
+    'tables': ['LetterCase', 'ObjPath'],
     'level_text': ('Theorems proved in Coq for ALL canonical snake_case names (any number of words, any length) and all six '
                    'documented casings, about an executable model of utils/string_conv.py and the default-engine key '
                    'resolution; the model is re-validated against the implementation on every run (exhaustive small-alphabet '
@@ -173,6 +174,7 @@ def resolve_cases(ctx, names):
 
 
 def run(ctx):
+    run_paths_and_aliases(ctx)
     cases, names, canon = string_cases(ctx)
     allstr = list(dict.fromkeys(cases + canon))
     ascii_only = [s for s in allstr if all(ord(c) < 128 for c in s)]
@@ -243,7 +245,223 @@ def run(ctx):
     ctx.sample({'resolve_case': {'fields': res_cases[0][0], 'key': res_cases[0][1]}, 'impl': impl_res['cases'][0]})
 
 
+# ---------------------------------------------------------------------------
+# object paths and aliases
+PATH_ALPHA = 'a1.[]"\'\\-T'
+PATH_PRELUDE = '''
+Definition show_tok (t : tok) : pstr := match t with TStr s => S "s" ++ hex s | TNum s => S "n" ++ hex s | TBool true => S "b1" | TBool false => S "b0" end.
+Definition show_path (s : pstr) : pstr := join (S ",") (map show_tok (split_object_path s)).
+'''
+ALIAS_POOL = ["it's", 'a"b', 'c\\d', 'x\ny', '{z}', 'é.ü', 'tab\there', "'", '"', '\\', "mixed'\"q", 'a.b[0]', '{0!r}', '%s',
+              'key with space', 'ünï-cødé', '$ref', 'a\\', "\\'", 'null', 'True', '0', ' lead', 'trail ', 'a\x00b', '日本']
+
+
+def conv_num(tok):
+    try:
+        return int(tok)
+    except ValueError:
+        try:
+            return float(tok)
+        except ValueError:
+            return tok
+
+
+def decode_model_path(m):
+    out = []
+    if m == '':
+        return out
+    for t in m.split(','):
+        if t[0] == 's':
+            out.append(bytes.fromhex(t[1:]).decode('utf-8', 'surrogateescape'))
+        elif t[0] == 'n':
+            out.append(conv_num(bytes.fromhex(t[1:]).decode('utf-8', 'surrogateescape')))
+        else:
+            out.append(t == 'b1')
+    return out
+
+
+def canon_py(x):
+    import math
+    if isinstance(x, bool):
+        return {'bool': x}
+    if isinstance(x, int):
+        return {'int': str(x)}
+    if isinstance(x, float):
+        return {'float': x.hex() if math.isfinite(x) else repr(x)}
+    return {'str': x}
+
+
+def render_comp(c):
+    """Python twin of ObjPathProofs.render_comp."""
+    if isinstance(c, bool):
+        return '[True]' if c else '[False]'
+    if isinstance(c, (int, float)):
+        return '[%r]' % c
+    if c.isidentifier() and c.isascii() and c not in ('true', 'false', 'True', 'False'):
+        return '.' + c
+    return '["%s"]' % c.replace('"', '\\"')
+
+
+def gen_comp(r):
+    k = r.random()
+    if k < 0.3:
+        return ''.join(r.choice('abcxyz_') for _ in range(r.choice([1, 2, 5])))
+    if k < 0.55:
+        pool = 'ab.[]\'" -_/{}:,é1'
+        return ''.join(r.choice(pool) for _ in range(r.choice([1, 2, 3, 6])))
+    if k < 0.8:
+        return r.choice([0, 1, -1, 7, -12, 10 ** 12, r.randrange(-1000, 1000)])
+    if k < 0.92:
+        return r.choice([1.5, -0.25, 1e300, 2.0, r.random() * 100])
+    return r.choice([True, False])
+
+
+def run_paths_and_aliases(ctx):
+    import itertools
+    r = ctx.sub_rng('paths')
+    L = 4 if ctx.tier == 'quick' else 5
+    raw = [''.join(t) for n in range(0, L + 1) for t in itertools.product(PATH_ALPHA, repeat=n)]
+    if ctx.tier == 'quick':
+        raw = [s for s in raw if len(s) <= 3] + r.sample([s for s in raw if len(s) == 4], 2500)
+    pool2 = 'abnT01.[]"\'\\-+ _e'
+    for _ in range(1500 if ctx.tier == 'quick' else 15000):
+        raw.append(''.join(r.choice(pool2 if r.random() < 0.7 else 'xyz_.[]"\\ntr\'/{}9') for _ in range(r.choice([3, 5, 8, 13]))))
+    raw = list(dict.fromkeys(raw))
+    comp_lists = [[gen_comp(r) for _ in range(r.choice([1, 2, 3, 4]))] for _ in range(200 if ctx.tier == 'quick' else 2000)]
+    rendered = [''.join(render_comp(c) for c in cl) for cl in comp_lists]
+    allp = raw + rendered
+    # e2e path tasks
+    path_tasks = []
+    for cl, ps in list(zip(comp_lists, rendered))[:40 if ctx.tier == 'quick' else 300]:
+        for eng, style in [('v0', 'path_field'), ('v0', 'KeyPath'), ('v1', 'AliasPath')]:
+            path_tasks.append({'engine': eng, 'style': style, 'path': ps, 'value': r.randrange(2, 99),
+                               'comps': [[k, v] for c in cl for k, v in canon_py(c).items()]})
+    # alias tasks
+    alias_tasks = []
+    pool = list(ALIAS_POOL)
+    for _ in range(30 if ctx.tier == 'quick' else 300):
+        pool.append(''.join(r.choice('ab\'"\\\n{}.[] é$%') for _ in range(r.choice([1, 2, 4, 7]))))
+    for i in range(60 if ctx.tier == 'quick' else 600):
+        k = r.choice([1, 1, 2, 3])
+        al = []
+        while len(al) < k:
+            a = r.choice(pool)
+            if a not in al and a not in ('f', 'g') and a != '__all__':
+                al.append(a)
+        eng, style = r.choice([('v0', 'json_field'), ('v0', 'json_key'), ('v0', 'meta_map'), ('v1', 'v1_alias'), ('v1', 'v1_meta')])
+        t = {'engine': eng, 'style': style, 'aliases': al, 'all': r.random() < 0.6, 'dump': True, 'value': r.randrange(2, 50)}
+        if style in ('json_field', 'json_key', 'v1_alias') and r.random() < 0.15:
+            t['dump'] = False
+        if style == 'v1_alias' and t['dump'] and r.random() < 0.15:
+            t['load_only'] = True
+        alias_tasks.append(t)
+    impl = ctx.impl('c08_paths', {'split': allp, 'alias': alias_tasks, 'path': path_tasks})
+    model = None
+    try:
+        ascii_paths = [(i, p_) for i, p_ in enumerate(allp)]
+        model = ctx.coq(['show_path %s' % coq_str(p_) for p_ in allp], ['ObjPath'], prelude=PATH_PRELUDE, tag='paths')
+    except Exception as e:
+        ctx.broken_tie('ObjPath model evaluation failed: %s' % str(e)[:400])
+    # tokenizer: model vs implementation, and round trip of rendered component lists
+    for i, p_ in enumerate(allp):
+        ctx.count(1, key='p:' + p_, nontrivial=any(ch in p_ for ch in '.[]"\''))
+        got = impl['split'][i]
+        if i >= len(raw):
+            cl = comp_lists[i - len(raw)]
+            exp = [canon_py(c) for c in cl]
+            if got.get('ok') != exp:
+                ctx.violation('split_object_path(%r) = %r, expected the components %r it was rendered from' % (p_, got, cl),
+                              {'kind': 'path_split', 'path': p_, 'expected': exp})
+        if model is not None and all(ord(ch) < 128 for ch in p_):
+            if 'ok' not in got or [canon_py(x) for x in decode_model_path(model[i])] != got['ok']:
+                ctx.disagreements_checked += 1
+                ctx.broken_tie('ObjPath model and implementation disagree on %r' % p_, {'path': p_, 'impl': got, 'model': model[i]})
+    ctx.hist('paths', 'raw=%d rendered=%d' % (len(raw), len(rendered)))
+    ctx.sample({'path': rendered[0], 'components': [canon_py(c) for c in comp_lists[0]], 'impl': impl['split'][len(raw)]})
+    # e2e paths
+    for t, res in zip(path_tasks, impl['path']):
+        ctx.count(1, key='pe:%s|%s' % (t['style'], t['path']), nontrivial=len(t['comps']) >= 2)
+        bad = check_path_e2e(t, res)
+        if bad:
+            ctx.violation('%s %s with path %r: %s' % (t['engine'], t['style'], t['path'], bad), {'kind': 'path_e2e', 'task': t})
+    # aliases
+    for t, res in zip(alias_tasks, impl['alias']):
+        ctx.count(1, key='a:%s|%s|%s|%s' % (t['style'], '|'.join(t['aliases']), t['all'], t['dump']), nontrivial=True)
+        ctx.hist('alias_style', t['style'])
+        bad = check_alias(t, res)
+        if bad:
+            ctx.violation('%s alias %r (%s, all=%s, dump=%s): %s' % (t['engine'], t['aliases'], t['style'], t['all'], t['dump'], bad),
+                          {'kind': 'alias', 'task': t})
+    ctx.sample({'alias_task': alias_tasks[0], 'impl': impl['alias'][0]})
+
+
+def check_path_e2e(t, res):
+    if 'err' in res:
+        return 'class definition failed: %s %s' % (res['err'], res.get('msg'))
+    ld = res['load']
+    if 'err' in ld:
+        return 'load raised %s: %s' % (ld['err'], ld.get('msg'))
+    if (ld['ok']['fields']['f'] or {}).get('int') != str(t['value']):
+        return 'load read %r, expected %d' % (ld['ok']['fields']['f'], t['value'])
+    if res.get('dump_at_path') != {'int': str(t['value'])}:
+        return 'dump did not place the value at the path: %r' % (res.get('dump_at_path'),)
+    return None
+
+
+def check_alias(t, res):
+    if 'err' in res:
+        return 'class definition failed: %s %s' % (res['err'], res.get('msg'))
+    v = str(t['value'])
+    for a, ld in zip(t['aliases'], res['loads']):
+        if 'err' in ld:
+            return 'load under alias %r raised %s: %s' % (a, ld['err'], ld.get('msg'))
+        f = ld['ok']['fields']
+        if (f['f'] or {}).get('int') != v or (f['g'] or {}).get('int') != '1':
+            return 'load under alias %r gave %r' % (a, f)
+    if t['engine'] == 'v1' and res.get('both') is not None:
+        b = res['both']
+        if 'err' in b:
+            return 'load with all aliases present raised %s: %s' % (b['err'], b.get('msg'))
+        if (b['ok']['fields']['f'] or {}).get('int') != v:
+            return 'several aliases present: first listed did not win: %r' % (b['ok']['fields'],)
+    d = res['dump']
+    if d is None or 'err' in d:
+        return 'dump raised %r' % (d,)
+    keys = {k['str']: w.get('int') for k, w in d['ok']['dict']}
+    st = t['style']
+    if t['dump'] is False:
+        exp_key = None
+    elif st in ('json_field', 'json_key', 'meta_map'):
+        exp_key = t['aliases'][0] if t['all'] else 'f'
+    elif st == 'v1_alias':
+        exp_key = 'f' if t.get('load_only') else t['aliases'][0]
+    else:
+        exp_key = t['aliases'][0]
+    exp = {'g': '1'}
+    if exp_key is not None:
+        exp[exp_key] = v
+    if keys != exp:
+        return 'dumped %r, expected %r' % (keys, exp)
+    if res.get('dump2') != d:
+        return 'second dump differs from the first'
+    return None
+
+
 def replay(ctx, obj):
+    if obj.get('kind') == 'path_split':
+        got = ctx.impl('c08_paths', {'split': [obj['path']]})['split'][0]
+        print('split_object_path(%r) = %r (expected %r)' % (obj['path'], got, obj['expected']))
+        return got.get('ok') == obj['expected']
+    if obj.get('kind') == 'path_e2e':
+        res = ctx.impl('c08_paths', {'path': [obj['task']]})['path'][0]
+        bad = check_path_e2e(obj['task'], res)
+        print('outcome: %s' % (bad or 'as expected'))
+        return bad is None
+    if obj.get('kind') == 'alias':
+        res = ctx.impl('c08_paths', {'alias': [obj['task']]})['alias'][0]
+        bad = check_alias(obj['task'], res)
+        print('outcome: %s' % (bad or 'as expected'))
+        return bad is None
     if obj.get('kind') == 'string':
         got = ctx.impl('c08', {'strings': [obj['string']], 'e2e': []})['strings'][0]
         print('to_snake_case(%r) = %r (expected %r)' % (obj['string'], got['snake'], obj['expected_snake']))
